@@ -1,7 +1,7 @@
 """Source of MANIFEST.json (bin/mkmanifest). A property appears as a check only if checks/<id>.py exists."""
 
 # checks registered in MANIFEST.json (a check file may exist before it is ready)
-READY = ['C40', 'C43', 'C39', 'C42', 'C02', 'C10', 'C13', 'C47', 'C28', 'C29', 'C30', 'C32', 'C34', 'C35', 'C36', 'C37', 'C23', 'C21', 'C22', 'C19', 'C20', 'C46', 'C01', 'C03', 'C04', 'C05', 'C06', 'C07', 'C08', 'C09', 'C11', 'C12', 'C14', 'C15', 'C16', 'C17', 'C18', 'C49']
+READY = ['C43', 'C39', 'C42', 'C02', 'C10', 'C13', 'C47', 'C28', 'C29', 'C30', 'C32', 'C34', 'C35', 'C36', 'C37', 'C23', 'C21', 'C22', 'C19', 'C20', 'C46', 'C01', 'C03', 'C04', 'C05', 'C06', 'C07', 'C08', 'C09', 'C11', 'C12', 'C14', 'C15', 'C16', 'C17', 'C18', 'C49']
 
 HOOK_COMMITS = ['6abf118d3b', '23b4e66deb', '9ed5be8760']
 
@@ -114,7 +114,7 @@ CLAIMS = {
                 note='sampling gives a lower bound on reachability'),
     'C39': dict(engine='mcsim', text='Along seeded walks, pairs of enabled transitions declared independent are executed in both orders from the same prefix; state fingerprints and enabledness compared; symmetry of depends().',
                 note='fingerprint computed by the harness from s4u/kernel handles'),
-    'C40': dict(engine='mcsim', text='ODPOR explored executions replayed in-process; Foata normal forms under depends() must be pairwise distinct and cover sampled executions.', note='-'),
+    'C40': dict(unclaimed_reason='the check exists (checks/c40.py, engine D: Foata normal forms of the complete executions of none and odpor) and was clean on four seeds under load, but with the full quick budget on an idle machine the default seed already shows two further genuine defect classes of simgrid-mc (wakeup-tree invariant abort with MC_random under odpor; odpor with the uniform strategy exploring executions unknown to the unreduced exploration): as for C38 and C41, a check that cannot enumerate the defects of its subject is not registered', engine='mcsim', text='ODPOR explored executions replayed in-process; Foata normal forms under depends() must be pairwise distinct and cover sampled executions.', note='-'),
     'C41': dict(unclaimed_reason='the check exists (checks/c41.py, engine D: simgrid-mc explorations against seeded walks and the reference model) and its findings are in known_findings.C41.json, but simgrid-mc shows new defect classes (aborts, protocol errors, missed outcomes) on nearly every new seed: a check that cannot list them all would alarm on the unchanged tree, so it is not registered', engine='mcsim', text='Counter-examples printed by simgrid-mc replayed with model-check/replay (twice) and by the walker with the reference model.', note='-'),
     'C42': dict(engine='mcsim', text='happens_before/racing events vs transitive closure of depends on executions sampled by seeded walks.',
                 note='pure function; simulation contributes the real executions'),
